@@ -63,6 +63,9 @@ def gen(rng):
                 continue
             G.add_trashed(steps, G.home_trash_of(env), nm, TG.pct(home + '/old/' + nm), '2020-01-01T00:00:00', 'file', tag='old')
     opts = []
+    if rng.random() < 0.25:
+        # -f only excuses arguments that do not exist: an entry that is there and could not be trashed is still a failure
+        opts.append(rng.choice(['-f', '-f', '--force', '-v']))
     if rng.random() < 0.15:
         opts.append('--home-fallback')
         env['TRASH_ENABLE_HOME_FALLBACK'] = '1'
